@@ -43,6 +43,12 @@ Definition g0 : ghost := mkG tempty kempty None.
 Section Frame.
   Variable w0 : world.          (* the start world *)
   Variable p : pid.             (* the pid the interrupted call names *)
+  (* what the call may publish: the content of a new object, the content of p's new reference *)
+  Variable pubO : cid -> fcontent -> Prop.
+  Variable pubP : fcontent -> Prop.
+
+  Definition pubok (d : addr) (v : fcontent) : Prop :=
+    match d with AObj k => pubO k v | APidRef _ => pubP v | _ => True end.
 
   Definition bound0 (q : pid) (k : cid) : Prop := lookup (APidRef q) (fs w0) = Some (CCid k).
   (* no OTHER pid is bound to c in the start world *)
@@ -86,7 +92,7 @@ Section Frame.
     | Rename s d =>
         tmpb d = false /\ mine s /\ mine d /\
         (if ownb 0 s
-         then tyb d = true -> exists v, gT G s = Some v /\ good2 d v
+         then tyb d = true -> exists v, gT G s = Some v /\ good2 d v /\ pubok d v
          else tmpb s = false /\ tyb d = false)
     | Remove a => (tmpb a = true -> ownb 0 a = true) /\ mine a
     | AppendOpen a | AppendWrite a _ => exists c, a = ACidRef c
@@ -321,7 +327,7 @@ Section Frame.
              ++ apply addr_eqb_true in E. subst. inversion Hl'; subst. right.
                 destruct (tyb dst) eqn:Et; [|apply good2_untyped; exact Et].
                 destruct (ownb 0 src) eqn:Eo; [|destruct Hs; congruence].
-                destruct (Hs eq_refl) as [v' [HT Hg]].
+                destruct (Hs eq_refl) as [v' [HT [Hg _]]].
                 apply HaT in HT; auto. simpl in HT. congruence.
              ++ rewrite lookup_delete in Hl'. destruct (addr_eqb a src); [discriminate|auto].
       + inversion Hex; subst; clear Hex.
@@ -414,9 +420,87 @@ Section Frame.
     - (* Peek *) inversion Hex; subst. (split; [exact I|split; [split; auto|exact HW]]).
     - (* Held *) inversion Hex; subst. (split; [exact I|split; [split; auto|exact HW]]).
   Qed.
+
+  (* ---------- where objects and p's reference come from ---------- *)
+
+  Definition OP (w : world) : Prop :=
+    (forall k x, lookup (AObj k) (fs w) = Some x -> lookup (AObj k) (fs w0) = Some x \/ pubO k x) /\
+    (forall v, lookup (APidRef p) (fs w) = Some v -> lookup (APidRef p) (fs w0) = Some v \/ pubP v).
+
+  Definition pubaddr (a : addr) : bool := match a with AObj _ | APidRef _ => true | _ => false end.
+
+  Lemma step_new_content : forall o G w x w' a v,
+    agreeG G w -> oppre o G -> exec_op 0 o w = Some (x, w') -> pubaddr a = true ->
+    lookup a (fs w') = Some v -> lookup a (fs w) = Some v \/ pubok a v.
+  Proof.
+    intros o G w x w' a v Hag Hpre Hex Ha Hv.
+    destruct (lookup a (fs w)) as [v0|] eqn:E0.
+    - destruct (fcontent_eqb v0 v) eqn:Ev; [apply fcontent_eqb_true in Ev; subst; auto|].
+      assert (Hne : lookup a (fs w) <> lookup a (fs w')).
+      { rewrite E0, Hv. intros H. inversion H; subst.
+        assert (fcontent_eqb v v = true).
+        { destruct v; simpl; rewrite ?Nat.eqb_refl; auto.
+          apply (list_eqb_refl Nat.eqb Nat.eqb_refl). }
+        congruence. }
+      destruct (change_needs_rename_or_remove 0 o w x w' a Hex Hne) as [[s ->]|[[d ->]|[->|[Hi|Hm]]]].
+      + destruct w as [m L]. simpl in *. destruct Hpre as (Hd & _ & _ & Hs).
+        destruct (lookup s m) as [c|] eqn:El; inversion Hex; subst; clear Hex; [|simpl in Hv; first [congruence | left; congruence]].
+        simpl in Hv. rewrite lookup_update_eq in Hv. inversion Hv; subst c.
+        destruct (ownb 0 s) eqn:Eo.
+        * assert (Ht : tyb a = true) by (destruct a; simpl in *; congruence).
+          destruct (Hs Ht) as [v' [HT [_ Hp]]]. destruct Hag as (HaT & _).
+          apply HaT in HT; auto. simpl in HT. right. congruence.
+        * destruct Hs as [_ Ht]. destruct a; simpl in *; congruence.
+      + destruct w as [m L]. simpl in *.
+        destruct (lookup a m) as [c|] eqn:El; inversion Hex; subst; clear Hex; [|simpl in Hv; first [congruence | left; congruence]].
+        simpl in Hv. rewrite lookup_update in Hv.
+        destruct (addr_eqb a d) eqn:E; [inversion Hv; subst; left; congruence|].
+        rewrite lookup_delete_eq in Hv. discriminate.
+      + destruct w as [m L]. simpl in *.
+        destruct (lookup a m) as [c|] eqn:El; inversion Hex; subst; clear Hex; [|simpl in Hv; first [congruence | left; congruence]].
+        simpl in Hv. rewrite lookup_delete_eq in Hv. discriminate.
+      + exfalso. destruct o; simpl in Hi; try discriminate; inversion Hi; subst; simpl in Hpre.
+        * destruct Hpre as [H _]. destruct a; simpl in *; discriminate.
+        * destruct a; simpl in *; discriminate.
+        * destruct Hpre as [c ->]. discriminate.
+        * destruct Hpre as [c ->]. discriminate.
+        * destruct Hpre as [[c ->] _]. discriminate.
+        * destruct Hpre as [c [-> _]]. discriminate.
+      + exfalso. destruct Hm as [ar [init [_ Ht]]]. destruct a; simpl in *; discriminate.
+    - assert (Hne : lookup a (fs w) <> lookup a (fs w')) by (rewrite E0, Hv; discriminate).
+      destruct (change_needs_rename_or_remove 0 o w x w' a Hex Hne) as [[s ->]|[[d ->]|[->|[Hi|Hm]]]].
+      + destruct w as [m L]. simpl in *. destruct Hpre as (Hd & _ & _ & Hs).
+        destruct (lookup s m) as [c|] eqn:El; inversion Hex; subst; clear Hex; [|simpl in Hv; first [congruence | left; congruence]].
+        simpl in Hv. rewrite lookup_update_eq in Hv. inversion Hv; subst c.
+        destruct (ownb 0 s) eqn:Eo.
+        * assert (Ht : tyb a = true) by (destruct a; simpl in *; congruence).
+          destruct (Hs Ht) as [v' [HT [_ Hp]]]. destruct Hag as (HaT & _).
+          apply HaT in HT; auto. simpl in HT. right. congruence.
+        * destruct Hs as [_ Ht]. destruct a; simpl in *; congruence.
+      + destruct w as [m L]. simpl in *. rewrite E0 in Hex. inversion Hex; subst. simpl in Hv. congruence.
+      + destruct w as [m L]. simpl in *. rewrite E0 in Hex. inversion Hex; subst. simpl in Hv. congruence.
+      + exfalso. destruct o; simpl in Hi; try discriminate; inversion Hi; subst; simpl in Hpre.
+        * destruct Hpre as [H _]. destruct a; simpl in *; discriminate.
+        * destruct a; simpl in *; discriminate.
+        * destruct Hpre as [c ->]. discriminate.
+        * destruct Hpre as [c ->]. discriminate.
+        * destruct Hpre as [[c ->] _]. discriminate.
+        * destruct Hpre as [c [-> _]]. discriminate.
+      + exfalso. destruct Hm as [ar [init [_ Ht]]]. destruct a; simpl in *; discriminate.
+  Qed.
+
+  Lemma step_OP : forall o G w x w',
+    agreeG G w -> oppre o G -> exec_op 0 o w = Some (x, w') -> OP w -> OP w'.
+  Proof.
+    intros o G w x w' Hag Hpre Hex [HO HP]. split.
+    - intros k y Hy.
+      destruct (step_new_content o G w x w' (AObj k) y Hag Hpre Hex eq_refl Hy) as [H|H]; auto.
+    - intros v Hv.
+      destruct (step_new_content o G w x w' (APidRef p) v Hag Hpre Hex eq_refl Hv) as [H|H]; auto.
+  Qed.
 End Frame.
 
-Arguments Safe w0 p {A} m G Q.
+Arguments Safe w0 p pubO pubP {A} m G Q.
 
 (* ================================================================================== *)
 (* Combinators and the API discipline                                                 *)
@@ -425,8 +509,10 @@ Arguments Safe w0 p {A} m G Q.
 Section ApiFrame.
   Variable w0 : world.
   Variable p : pid.
-  Notation Safe := (Safe w0 p).
-  Notation oppre := (oppre w0 p).
+  Variable pubO : cid -> fcontent -> Prop.
+  Variable pubP : fcontent -> Prop.
+  Notation Safe := (Safe w0 p pubO pubP).
+  Notation oppre := (oppre w0 p pubO pubP).
   Notation free := (free w0 p).
   Notation objfree := (objfree w0 p).
   Notation mine := (mine w0 p).
@@ -615,6 +701,7 @@ Section ApiFrame.
       | apply ok_mbind
       | apply ok_catch
       | apply okv_try_finally
+      | apply okv_ret; reflexivity
       | match goal with
         | |- OkV (match ?x with _ => _ end) _ => destruct x
         end ]).
@@ -767,10 +854,11 @@ Section ApiFrame.
 
   Lemma safe_rename_own : forall t d G v (Q : outcome unit -> ghost -> Prop),
     ownb 0 t = true -> tmpb d = false -> mine d -> gT G t = Some v -> good2 d v ->
+    pubok pubO pubP d v ->
     (forall r, Q r (reset (tdel (gT G) t))) ->
     Safe (unit_op (Rename t d)) G Q.
   Proof.
-    intros t d G v Q Hown Hd Hm HT Hg HQ. unfold unit_op. simpl.
+    intros t d G v Q Hown Hd Hm HT Hg Hpub HQ. unfold unit_op. simpl.
     split.
     - split; [exact Hd|]. split; [apply mine_tmp; eapply ownb_tmpb; eauto|]. split; [exact Hm|].
       rewrite Hown. intros _. eauto.
@@ -840,9 +928,9 @@ Section ApiFrame.
     split; [exact I|]. intros x [b2 [-> [_ Hf]]]. simpl. exists b2. split; [reflexivity|exact Hf].
   Qed.
 
-  Lemma ok_store_refs_body : forall c, Ok (store_refs_body p c).
+  Lemma ok_store_refs_body : forall c, pubP (CCid c) -> Ok (store_refs_body p c).
   Proof.
-    intros c. unfold store_refs_body.
+    intros c HpubP. unfold store_refs_body.
     apply ok_mbind; [okd|]. intros _.
     apply ok_mbind; [okd|]. intros _.
     intros G. eapply safe_mbind; [apply round1| |intros e G' [b [H _]]; discriminate].
@@ -881,9 +969,9 @@ Section ApiFrame.
   Qed.
   Hint Resolve ok_store_refs_body : okdb.
 
-  Lemma ok_tag_object : forall c, Ok (tag_object p c).
+  Lemma ok_tag_object : forall c, pubP (CCid c) -> Ok (tag_object p c).
   Proof.
-    intros c. unfold tag_object.
+    intros c HpubP. unfold tag_object.
     apply okv_try_finally; [|okauto].
     apply ok_mbind; [okd|]. intros _.
     apply ok_mbind; [okd|]. intros _.
@@ -929,9 +1017,10 @@ Section ApiFrame.
     apply ok_unit_remove_nt; [reflexivity|exact Hc].
   Qed.
 
-  Lemma ok_move_and_get_checksums : forall po b n sz ck, Ok (move_and_get_checksums po b n sz ck).
+  Lemma ok_move_and_get_checksums : forall po b n sz ck, pubO b (CData b n n) ->
+    OkV (move_and_get_checksums po b n sz ck) (fun c0 => c0 = b).
   Proof.
-    intros po b n sz ck G. unfold move_and_get_checksums.
+    intros po b n sz ck HpubO G. unfold move_and_get_checksums.
     eapply safe_mbind with
       (Q1 := fun r G' => match r with
                          | Val t => ownb 0 t = true /\ gT G' t = Some (CData b n 0)
@@ -946,9 +1035,9 @@ Section ApiFrame.
     { unfold catch. eapply safe_bind; [apply (write_chunks_safe n G1 t b n 0 Hown Ht)|].
       intros [u|e] G' H; simpl; auto. }
     intros w G2 Hw. destruct w as [u|e].
-    2:{ assert (H : Ok (swallow_op (Remove t) ;;; @raise cid EGeneric)) by okauto. apply H. }
+    2:{ assert (H : OkV (swallow_op (Remove t) ;;; @raise cid EGeneric) (fun c0 => c0 = b)) by okauto. apply H. }
     apply safe_probe_mbind. intros e _ Hf. destruct e; simpl negb; cbv iota.
-    - assert (H : Ok (r <- catch (verify_object match po with Some _ => true | None => false end t sz ck) ;;
+    - assert (H : OkV (r <- catch (verify_object match po with Some _ => true | None => false end t sz ck) ;;
                       match r with
                       | Val _ => unit_op (Remove t);;; ret b
                       | Exn ENonMatchingObjSize =>
@@ -958,7 +1047,7 @@ Section ApiFrame.
                           (if match po with Some _ => true | None => false end
                            then ret tt else unit_op (Remove t));;; raise ENonMatchingChecksum
                       | Exn other => unit_op (Remove t);;; raise other
-                      end)).
+                      end) (fun c0 => c0 = b)).
       { apply ok_mbind; [okauto|]. intros [u'|e']; [okauto|]. destruct e'; okauto. }
       apply H.
     - specialize (Hf eq_refl). simpl in Hf.
@@ -973,9 +1062,9 @@ Section ApiFrame.
       eapply safe_mbind with (Q1 := fun _ _ => True); [| |intros; exact I].
       + unfold catch. eapply safe_bind with (Q1 := fun _ _ => True); [|intros; exact I].
         eapply safe_rename_own; eauto. simpl. eauto.
-      + intros r G4 _. destruct r as [u'|err]; [exact I|].
+      + intros r G4 _. destruct r as [u'|err]; [reflexivity|].
         pose proof (ok_delete_object_file b Hf) as Hdel.
-        assert (H : Ok (e2 <- probe (AObj b) ;;
+        assert (H : OkV (e2 <- probe (AObj b) ;;
                         if e2
                         then match po with
                              | Some p' =>
@@ -987,19 +1076,38 @@ Section ApiFrame.
                                  end
                              | None => raise EValueError
                              end
-                        else unit_op (Remove t);;; @raise cid err)) by okauto.
+                        else unit_op (Remove t);;; @raise cid err) (fun c0 => c0 = b)) by okauto.
         apply H.
   Qed.
-  Hint Resolve ok_move_and_get_checksums : okdb.
+  Lemma ok_move_and_get_checksums' : forall po b n sz ck, pubO b (CData b n n) ->
+    Ok (move_and_get_checksums po b n sz ck).
+  Proof. intros. eapply okv_weaken; [apply ok_move_and_get_checksums; assumption|]. auto. Qed.
+  Hint Resolve ok_move_and_get_checksums' : okdb.
 
   Lemma ok_open_source : forall s, Ok (open_source s).
   Proof. intros []; simpl; auto with okdb. Qed.
   Hint Resolve ok_open_source : okdb.
 
-  Lemma ok_store_object_pid : forall s b n sz ck, Ok (store_object (Some p) s b n sz ck).
-  Proof. intros s b n sz ck. unfold store_object. okauto. Qed.
-  Lemma ok_store_object_nopid : forall s b n sz ck, Ok (store_object None s b n sz ck).
-  Proof. intros s b n sz ck. unfold store_object. okauto. Qed.
+  Lemma ok_store_object_pid : forall s b n sz ck, pubO b (CData b n n) -> pubP (CCid b) ->
+    Ok (store_object (Some p) s b n sz ck).
+  Proof.
+    intros s b n sz ck HpubO HpubP.
+    pose proof (ok_tag_object b HpubP) as Htag.
+    unfold store_object.
+    apply ok_mbind; [okd|]. intros busy. destruct busy; [apply okv_raise|].
+    apply okv_try_finally; [|okd].
+    apply ok_mbind; [okd|]. intros _.
+    apply ok_mbind; [okd|]. intros _.
+    eapply okv_mbind; [apply (ok_move_and_get_checksums (Some p) b n sz ck HpubO)|].
+    intros c0 ->. okauto.
+  Qed.
+  Lemma ok_store_object_nopid : forall s b n sz ck, pubO b (CData b n n) ->
+    Ok (store_object None s b n sz ck).
+  Proof.
+    intros s b n sz ck HpubO.
+    pose proof (ok_move_and_get_checksums' None b n VSzNone VCkNone HpubO) as Hmv.
+    unfold store_object. okauto.
+  Qed.
 
   Lemma ol_inv : forall a l, ol (a :: l) -> owned_by p a = true /\ ol l.
   Proof. intros a l H. split; [apply H; left; reflexivity|]. intros x Hx. apply H. right. exact Hx. Qed.
@@ -1158,14 +1266,21 @@ Section ApiFrame.
   Proof. intros. unfold lift_unit. okauto. Qed.
 
   (* every call that names pid p, or no pid at all, obeys the discipline *)
-  Theorem api_ok : forall c, (forall p', call_pid c = Some p' -> p' = p) -> Ok (api c).
+  Definition pub_call (c : call) : Prop :=
+    match c with
+    | CStore _ _ b n _ _ => pubO b (CData b n n) /\ pubP (CCid b)
+    | CTag _ k => pubP (CCid k)
+    | _ => True
+    end.
+
+  Theorem api_ok : forall c, (forall p', call_pid c = Some p' -> p' = p) -> pub_call c -> Ok (api c).
   Proof.
-    intros c Hc. destruct c; simpl in Hc |- *;
+    intros c Hc Hpub. destruct c; simpl in Hc, Hpub |- *;
       try (assert (Hp : p0 = p) by (apply Hc; reflexivity); subst p0).
-    - destruct p0 as [p'|].
-      + rewrite (Hc p' eq_refl). apply ok_store_object_pid.
-      + apply ok_store_object_nopid.
-    - apply ok_lift_unit. apply ok_tag_object.
+    - destruct Hpub as [HO HP]. destruct p0 as [p'|].
+      + rewrite (Hc p' eq_refl). apply ok_store_object_pid; assumption.
+      + apply ok_store_object_nopid; assumption.
+    - apply ok_lift_unit. apply ok_tag_object. exact Hpub.
     - apply ok_lift_unit. apply ok_delete_object.
     - apply ok_lift_unit. apply ok_delete_if_invalid.
     - apply ok_store_metadata.
@@ -1182,16 +1297,35 @@ End ApiFrame.
 (* The crash theorems                                                                 *)
 (* ================================================================================== *)
 
-Lemma run_crash_WI : forall w0 p A n (m : prog A) G w,
-  Safe w0 p m G (fun _ _ => True) -> agreeG p G w -> WI w0 p w ->
+Definition pubT1 : cid -> fcontent -> Prop := fun _ _ => True.
+Definition pubT2 : fcontent -> Prop := fun _ => True.
+
+Lemma pub_call_trivial : forall c, pub_call pubT1 pubT2 c.
+Proof. destruct c; simpl; unfold pubT1, pubT2; auto. Qed.
+
+Lemma run_crash_WI : forall w0 p pubO pubP A n (m : prog A) G w,
+  Safe w0 p pubO pubP m G (fun _ _ => True) -> agreeG p G w -> WI w0 p w ->
   WI w0 p (run_crash n w m).
 Proof.
   induction n as [|n IH]; intros m G w Hs Hag HW; simpl; [exact HW|].
   destruct m as [a|o k|]; try exact HW.
   destruct (exec_op 0 o w) as [[x w1]|] eqn:Ex; [|exact HW].
   simpl in Hs. destruct Hs as [Hpre Hk].
-  destruct (step_sound w0 p o G w x w1 Hag HW Hpre Ex) as [Hans [Hag' HW']].
+  destruct (step_sound w0 p pubO pubP o G w x w1 Hag HW Hpre Ex) as [Hans [Hag' HW']].
   eapply IH; [apply Hk; exact Hans|exact Hag'|exact HW'].
+Qed.
+
+Lemma run_crash_OP : forall w0 p pubO pubP A n (m : prog A) G w,
+  Safe w0 p pubO pubP m G (fun _ _ => True) -> agreeG p G w -> WI w0 p w -> OP w0 p pubO pubP w ->
+  OP w0 p pubO pubP (run_crash n w m).
+Proof.
+  induction n as [|n IH]; intros m G w Hs Hag HW HO; simpl; [exact HO|].
+  destruct m as [a|o k|]; try exact HO.
+  destruct (exec_op 0 o w) as [[x w1]|] eqn:Ex; [|exact HO].
+  simpl in Hs. destruct Hs as [Hpre Hk].
+  destruct (step_sound w0 p pubO pubP o G w x w1 Hag HW Hpre Ex) as [Hans [Hag' HW']].
+  pose proof (step_OP w0 p pubO pubP o G w x w1 Hag Hpre Ex HO) as HO'.
+  eapply IH; [apply Hk; exact Hans|exact Hag'|exact HW'|exact HO'].
 Qed.
 
 Lemma Inv_WI : forall w0 p, Inv w0 -> WI w0 p w0 /\ agreeG p g0 w0.
@@ -1212,7 +1346,7 @@ Proof.
   intros w0 c p n HI Hc. destruct (Inv_WI w0 p HI) as [HW Hag].
   assert (H : WI w0 p (run_crash n w0 (api c))).
   { eapply run_crash_WI; [|exact Hag|exact HW].
-    eapply safe_weaken; [apply (api_ok w0 p c Hc)|]. auto. }
+    eapply safe_weaken; [apply (api_ok w0 p pubT1 pubT2 c Hc (pub_call_trivial c))|]. auto. }
   exact H.
 Qed.
 
@@ -1304,16 +1438,30 @@ Qed.
 (* Composition: any sequence of calls on p, each completed or interrupted             *)
 (* ================================================================================== *)
 
-Lemma run_seq_WI : forall w0 p A (m : prog A) G w w' r,
-  Safe w0 p m G (fun _ _ => True) -> agreeG p G w -> WI w0 p w ->
+Lemma run_seq_WI : forall w0 p pubO pubP A (m : prog A) G w w' r,
+  Safe w0 p pubO pubP m G (fun _ _ => True) -> agreeG p G w -> WI w0 p w ->
   run_seq w m = Some (w', r) -> WI w0 p w'.
 Proof.
   induction m as [a|o k IH|]; intros G w w' r Hs Hag HW Hrun; simpl in Hrun.
   - inversion Hrun; subst. exact HW.
   - destruct (exec_op 0 o w) as [[x w1]|] eqn:Ex; [|discriminate].
     simpl in Hs. destruct Hs as [Hpre Hk].
-    destruct (step_sound w0 p o G w x w1 Hag HW Hpre Ex) as [Hans [Hag' HW']].
+    destruct (step_sound w0 p pubO pubP o G w x w1 Hag HW Hpre Ex) as [Hans [Hag' HW']].
     eapply IH; [apply Hk; exact Hans|exact Hag'|exact HW'|exact Hrun].
+  - discriminate.
+Qed.
+
+Lemma run_seq_OP : forall w0 p pubO pubP A (m : prog A) G w w' r,
+  Safe w0 p pubO pubP m G (fun _ _ => True) -> agreeG p G w -> WI w0 p w -> OP w0 p pubO pubP w ->
+  run_seq w m = Some (w', r) -> OP w0 p pubO pubP w'.
+Proof.
+  induction m as [a|o k IH|]; intros G w w' r Hs Hag HW HO Hrun; simpl in Hrun.
+  - inversion Hrun; subst. exact HO.
+  - destruct (exec_op 0 o w) as [[x w1]|] eqn:Ex; [|discriminate].
+    simpl in Hs. destruct Hs as [Hpre Hk].
+    destruct (step_sound w0 p pubO pubP o G w x w1 Hag HW Hpre Ex) as [Hans [Hag' HW']].
+    pose proof (step_OP w0 p pubO pubP o G w x w1 Hag Hpre Ex HO) as HO'.
+    eapply IH; [apply Hk; exact Hans|exact Hag'|exact HW'|exact HO'|exact Hrun].
   - discriminate.
 Qed.
 
@@ -1330,7 +1478,7 @@ Theorem followup_call_WI : forall w0 p w c w' r,
 Proof.
   intros w0 p w c w' r HW Hc Hrun.
   eapply run_seq_WI; [|apply agree_g0|exact HW|exact Hrun].
-  eapply safe_weaken; [apply (api_ok w0 p c Hc)|]. auto.
+  eapply safe_weaken; [apply (api_ok w0 p pubT1 pubT2 c Hc (pub_call_trivial c))|]. auto.
 Qed.
 
 (* ... or is interrupted at any point, the process dying and the store being reopened *)
@@ -1340,7 +1488,7 @@ Theorem followup_crash_WI : forall w0 p w c n,
 Proof.
   intros w0 p w c n HW Hc. apply WI_reopen.
   eapply run_crash_WI; [|apply agree_g0|exact HW].
-  eapply safe_weaken; [apply (api_ok w0 p c Hc)|]. auto.
+  eapply safe_weaken; [apply (api_ok w0 p pubT1 pubT2 c Hc (pub_call_trivial c))|]. auto.
 Qed.
 
 (* what WI says about the other pids, with retrieve_object's answer *)
@@ -1488,10 +1636,442 @@ Proof.
   - intros d w1 r1 w2 r2 H1 H2.
     assert (HW1 : WI w0 p w1).
     { eapply run_seq_WI; [|apply agree_g0|exact HW|exact H1].
-      eapply safe_weaken; [apply (ok_delete_object w0 p)|]. auto. }
+      eapply safe_weaken; [apply (ok_delete_object w0 p pubT1 pubT2)|]. auto. }
     assert (HW2 : WI w0 p w2).
     { eapply run_seq_WI; [|apply agree_g0|exact HW1|exact H2].
-      eapply safe_weaken; [apply (ok_store_object_pid w0 p)|]. auto. }
+      eapply safe_weaken; [apply (ok_store_object_pid w0 p pubT1 pubT2); exact I|]. auto. }
     split; [apply HW2|].
     intros q fmts Hq Hnd. eapply WI_other_untouched; eauto.
+Qed.
+
+(* ================================================================================== *)
+(* Clause (b) in full: the content served to the interrupted pid is the old one or the *)
+(* call's                                                                              *)
+(* ================================================================================== *)
+
+(* what the call may publish *)
+Definition call_pubO (c : call) : cid -> fcontent -> Prop :=
+  fun k x => match c with CStore _ _ b n _ _ => k = b /\ x = CData b n n | _ => False end.
+Definition call_pubP (c : call) : fcontent -> Prop :=
+  fun v => match c with CStore _ _ b _ _ _ => v = CCid b | CTag _ k => v = CCid k | _ => False end.
+
+Lemma pub_call_self : forall c, pub_call (call_pubO c) (call_pubP c) c.
+Proof. destruct c; simpl; auto. Qed.
+
+(* SIZE CONSISTENCY.  In the token model the chunk count n of a content is an argument independent
+   of its cid b; in reality it is a function of the bytes.  The hypothesis says the call's (b, n)
+   agrees with an object b that the start world already holds. *)
+Definition call_size_ok (w0 : world) (c : call) : Prop :=
+  match c with
+  | CStore _ _ b n _ _ => forall x, lookup (AObj b) (fs w0) = Some x -> x = CData b n n
+  | _ => True
+  end.
+
+Lemma OP_start : forall w0 p pubO pubP, OP w0 p pubO pubP w0.
+Proof. intros. split; intros; left; assumption. Qed.
+
+Theorem crash_OP : forall w0 c p n,
+  Inv w0 -> (forall p', call_pid c = Some p' -> p' = p) ->
+  OP w0 p (call_pubO c) (call_pubP c) (reopen (run_crash n w0 (api c))).
+Proof.
+  intros w0 c p n HI Hc. destruct (Inv_WI w0 p HI) as [HW Hag].
+  assert (H : OP w0 p (call_pubO c) (call_pubP c) (run_crash n w0 (api c))).
+  { eapply run_crash_OP; [|exact Hag|exact HW|apply OP_start].
+    eapply safe_weaken; [apply (api_ok w0 p _ _ c Hc (pub_call_self c))|]. auto. }
+  exact H.
+Qed.
+
+Theorem crash_pid_retrievable_or_notfound : forall w0 c p n,
+  Inv w0 -> call_pid c = Some p -> call_size_ok w0 c ->
+  pid_retrievable_or_notfound w0 c p (reopen (run_crash n w0 (api c))).
+Proof.
+  intros w0 c p n HI Hcp Hsz.
+  assert (Hc : forall p', call_pid c = Some p' -> p' = p) by (intros p' H; congruence).
+  set (w := reopen (run_crash n w0 (api c))).
+  destruct (crash_never_wrong_bytes w0 c p n HI Hc p) as [(b & m & Hr & Hp & Ho)|Hex];
+    [|right; exact Hex].
+  fold w in Hr, Hp, Ho. left. exists b, m. split; [exact Hr|]. split; [|exact Hp].
+  destruct (crash_OP w0 c p n HI Hc) as [HO HP]. fold w in HO, HP.
+  unfold allowed_contents. apply in_or_app.
+  destruct (HP _ Hp) as [Hp0|Hpub].
+  - (* the reference is the old one *)
+    destruct (HO _ _ Ho) as [Ho0|Hpo].
+    + left. unfold old_contents.
+      destruct (Inv_WI w0 p HI) as [(Ht0 & _) _].
+      rewrite (retr_spec w0 p Ht0). unfold retr_fun, sem_find. rewrite Hp0.
+      destruct HI as [(W & I1 & I2) HL]. destruct (I1 p b Hp0) as (l & Hl & Hin).
+      rewrite Hl. apply (proj2 (memb_In Nat.eqb nat_eqb_true Nat.eqb_refl p l)) in Hin.
+      rewrite Hin. unfold present. rewrite Ho0. cbv beta iota. rewrite Ho0. left. reflexivity.
+    + right. destruct c; simpl in Hpo; try contradiction. destruct Hpo as [-> Hx].
+      simpl in Hcp. subst p0. simpl. rewrite Nat.eqb_refl. left. symmetry. exact Hx.
+  - (* the reference is the one the call was writing *)
+    right. destruct c; simpl in Hpub; try contradiction.
+    + inversion Hpub; subst b0. simpl in Hcp. subst p0. simpl. rewrite Nat.eqb_refl. left.
+      destruct (HO _ _ Ho) as [Ho0|[_ Hx]]; [|symmetry; exact Hx].
+      symmetry. apply (Hsz _ Ho0).
+    + inversion Hpub; subst c. simpl in Hcp. inversion Hcp; subst p0. simpl. rewrite Nat.eqb_refl.
+      destruct (HO _ _ Ho) as [Ho0|[]]. rewrite Ho0. left. reflexivity.
+Qed.
+
+(* the size-consistency hypothesis is necessary (a modelling artefact of tokens): the store holds
+   content 7 as 3 chunks under pid 2; store_object(pid 1, content 7 "of 1 chunk") completes and
+   pid 1 is served the 3 chunks, which is neither its old content nor the call's (7, 1) *)
+Definition size_w0 : world :=
+  mkWorld [(AObj 7, CData 7 3 3); (APidRef 2, CCid 7); (ACidRef 7, CLines [2])] [].
+Definition size_call : call := CStore (Some 1) SrcPath 7 1 VSzNone VCkNone.
+
+Lemma size_w0_Inv : Inv size_w0.
+Proof.
+  assert (H : run_seq empty_world (api (CStore (Some 2) SrcPath 7 3 VSzNone VCkNone)) =
+              Some (size_w0, Val (VMeta 7 3))) by (vm_compute; reflexivity).
+  eapply Inv_run_seq; [apply Refine.inv_empty| |exact H]. exact I.
+Qed.
+
+Example size_consistency_needed :
+  Inv size_w0 /\ call_pid size_call = Some 1 /\ ~ call_size_ok size_w0 size_call /\
+  ~ pid_retrievable_or_notfound size_w0 size_call 1 (reopen (run_crash 100 size_w0 (api size_call))).
+Proof.
+  split; [exact size_w0_Inv|]. split; [reflexivity|]. split.
+  - intros H. specialize (H _ eq_refl). discriminate.
+  - intros [(b & m & Hr & Hin & _)|(e & Hr & _)].
+    + vm_compute in Hr. inversion Hr; subst. vm_compute in Hin. destruct Hin as [H|[]]. discriminate.
+    + vm_compute in Hr. discriminate.
+Qed.
+
+(* ================================================================================== *)
+(* (T3) RECOVERY from every crash state                                               *)
+(* ================================================================================== *)
+
+(* The half-states a crash of a call on p can leave.  It turns out that recovery needs no finer
+   description than this: every permanent file well typed, the other pids framed as in w0, and
+   empty lock lists (the process died).  Leftover temp files of any thread index, leftover
+   deletion markers, a pid reference with or without its list line, a list line with or without
+   its pid reference, an object present or absent: all are allowed, and recovery is proved from
+   all of them. *)
+Definition CrashInv (w0 : world) (p : pid) (w : world) : Prop := WI w0 p w /\ locks w = [].
+
+Theorem crash_CrashInv : forall w0 c p n,
+  Inv w0 -> (forall p', call_pid c = Some p' -> p' = p) ->
+  CrashInv w0 p (reopen (run_crash n w0 (api c))).
+Proof. intros. split; [apply crash_WI; assumption|reflexivity]. Qed.
+
+(* ---------- total correctness of the sub-programs, from ANY well-typed file map:
+   leftover temp files (fresh_tmp is arbitrary) and leftover deletion markers allowed ---------- *)
+
+Lemma run_find_object_t : forall m L p, typed m ->
+  run_seq (mkWorld m L) (find_object p) = Some (mkWorld m L, sem_find m p).
+Proof.
+  intros m L p Ht. unfold find_object, sem_find, present.
+  destruct (lookup (APidRef p) m) as [x|] eqn:Hp.
+  - destruct (Ht _ _ Hp) as [c ->].
+    destruct (lookup (ACidRef c) m) as [y|] eqn:Hc.
+    + destruct (Ht _ _ Hc) as [l ->].
+      destruct (memb Nat.eqb p l) eqn:Hm.
+      * destruct (lookup (AObj c) m) eqn:Ho; steps; reflexivity.
+      * steps. reflexivity.
+    + steps. reflexivity.
+  - steps. reflexivity.
+Qed.
+
+Lemma run_mark_docs_gen : forall p l m L,
+  (forall a, In a l -> owned_by p a = true) ->
+  (forall a, memb lock_eqb (LMeta, IDoc a) L = false) ->
+  exists m1 ds,
+    run_seq (mkWorld m L) (mark_docs l) = Some (mkWorld m1 L, Val ds) /\
+    (forall x, In x ds -> owned_by p x = true) /\
+    (forall x, owned_by p x = false -> lookup x m1 = lookup x m).
+Proof.
+  intros p. induction l as [|a l IH]; intros m L Hl HL.
+  - exists m, []. split; [reflexivity|]. split; [intros x []|auto].
+  - assert (Ha : owned_by p a = true) by (apply Hl; left; reflexivity).
+    assert (Hl' : forall a, In a l -> owned_by p a = true) by (intros; apply Hl; right; auto).
+    cbn [mark_docs]. step1. step1. rewrite run_mbind, run_try_finally. step1. step1.
+    destruct (lookup a m) as [v|] eqn:Hv.
+    + unfold rename_for_deletion. steps.
+      destruct (IH (update (ADel a) v (delete a m)) L Hl' HL) as (m1 & ds & Hr & Pd & P).
+      rewrite Hr. cbn beta iota. rewrite run_ret.
+      eexists. eexists. split; [reflexivity|]. split.
+      { intros x [<-|Hx]; [rewrite owned_del; exact Ha|auto]. }
+      intros x Hx. rewrite P by exact Hx. rewrite lookup_update, lookup_delete.
+      destruct (addr_eqb x (ADel a)) eqn:E1.
+      { apply addr_eqb_true in E1. subst. rewrite owned_del in Hx. congruence. }
+      destruct (addr_eqb x a) eqn:E2; [|reflexivity].
+      apply addr_eqb_true in E2. subst. congruence.
+    + steps.
+      destruct (IH m L Hl' HL) as (m1 & ds & Hr & Pd & P).
+      rewrite Hr. cbn beta iota. rewrite run_ret.
+      eexists. eexists. split; [reflexivity|]. split; [exact Pd|exact P].
+Qed.
+
+Lemma run_delete_metadata_gen : forall p m L,
+  (forall a, memb lock_eqb (LMeta, IDoc a) L = false) ->
+  exists m2, run_seq (mkWorld m L) (delete_metadata p None) = Some (mkWorld m2 L, Val tt) /\
+             forall x, owned_by p x = false -> lookup x m2 = lookup x m.
+Proof.
+  intros p m L HL. cbn [delete_metadata]. step1. step1.
+  rewrite run_mbind, run_probe_all. cbn beta iota.
+  set (l' := filter (fun a => present a m) (filter (owned_by p) (keys m))).
+  assert (Hl' : forall a, In a l' -> owned_by p a = true).
+  { intros a Ha. apply filter_In in Ha. destruct Ha as [Ha _].
+    apply filter_In in Ha. apply Ha. }
+  destruct (run_mark_docs_gen p l' m L Hl' HL) as (m1 & ds & Hr & Pd & P).
+  rewrite run_mbind, Hr. cbn beta iota.
+  destruct (run_delete_marked ds m1 L) as (m2 & Hr2 & Hm2).
+  exists m2. split; [exact Hr2|].
+  intros x Hx. rewrite Hm2. destruct (memb addr_eqb x ds) eqn:E.
+  - apply memb_addr_In in E. apply Pd in E. congruence.
+  - apply P. exact Hx.
+Qed.
+
+(* delete_object *)
+Ltac use_delmeta_g p :=
+  match goal with
+  | |- context [run_seq (mkWorld ?M ?L0) (delete_metadata p None)] =>
+      let m2 := fresh "m2" in
+      let Hr := fresh "Hr" in
+      let Hm2 := fresh "Hm2" in
+      destruct (run_delete_metadata_gen p M L0) as (m2 & Hr & Hm2);
+      [ reflexivity | rewrite Hr ]
+  end.
+
+Ltac sub2 :=
+  first
+    [ rewrite run_write_refs_tmp
+    | erewrite run_update_refs_add by (lk; first [reflexivity | eassumption])
+    | erewrite run_update_refs_remove by (lk; first [reflexivity | eassumption])
+    | erewrite run_verify_refs_ok by (lk; first [reflexivity | eassumption])
+    | rewrite run_find_object_t by assumption ]; lk.
+Ltac run2 := repeat first [ step1 | sub2 | progress lk ].
+
+Ltac fin :=
+  eexists; eexists; split; [reflexivity|]; split; [auto|];
+  lk;
+  repeat (match goal with
+          | H : forall x, owned_by _ x = false -> lookup x _ = _ |- _ => rewrite H by reflexivity
+          end; lk);
+  try reflexivity; try assumption.
+
+Lemma delete_object_total : forall m p, typed m ->
+  exists m' r, run_seq (mkWorld m []) (delete_object p) = Some (mkWorld m' [], r) /\
+    (r = Val tt \/ r = Exn EPidRefsDoesNotExist) /\ lookup (APidRef p) m' = None.
+Proof.
+  intros m p Ht. unfold delete_object.
+  destruct (lookup (APidRef p) m) as [x|] eqn:Hp.
+  - destruct (Ht _ _ Hp) as [c ->].
+    run2. unfold sem_find, present. lk.
+    destruct (lookup (ACidRef c) m) as [y|] eqn:Hc.
+    + destruct (Ht _ _ Hc) as [l ->].
+      destruct (memb Nat.eqb p l) eqn:Hm.
+      * destruct (lookup (AObj c) m) as [o|] eqn:Ho; lk.
+        -- unfold rename_for_deletion. run2.
+           destruct (filter_lines p l) as [|q l'] eqn:Hnew; run2; cbn [delete_marked]; run2;
+             use_delmeta_g p; run2; fin.
+        -- unfold rename_for_deletion. run2.
+           destruct (filter_lines p l) as [|q l'] eqn:Hnew; run2;
+             use_delmeta_g p; cbn [delete_marked]; run2; fin.
+      * unfold rename_for_deletion. run2. use_delmeta_g p. cbn [delete_marked]. run2. fin.
+    + unfold rename_for_deletion. run2. use_delmeta_g p. cbn [delete_marked]. run2. fin.
+  - run2. unfold sem_find. run2. eexists. eexists. split; [reflexivity|]. split; [auto|exact Hp].
+Qed.
+
+Ltac name_tmp :=
+  match goal with
+  | |- context [fresh_tmp ?ar 0 ?M] =>
+      let n := fresh "n" in let Hn := fresh "Hn" in let Hab := fresh "Hab" in
+      destruct (fresh_tmp_shape ar 0 M) as [n Hn];
+      pose proof (fresh_tmp_absent ar 0 M) as Hab; rewrite Hn in *
+  end.
+
+Lemma run_mgc_gen : forall p b n m L,
+  exists m', run_seq (mkWorld m L) (move_and_get_checksums (Some p) b n VSzNone VCkNone) =
+               Some (mkWorld m' L, Val b) /\
+             fs_eq m' (obj_added b n m).
+Proof.
+  intros p b n m L. unfold move_and_get_checksums, obj_added, present. cbv zeta.
+  rewrite run_mbind, run_mktmp. name_tmp. cbn beta iota.
+  rewrite run_mbind, run_catch.
+  destruct (run_write_chunks n (ATmp ArObj 0 n0) b n 0 (update (ATmp ArObj 0 n0) (CData b n 0) m) L)
+    as (m1 & Hr & Hm1); [apply lookup_update_eq|].
+  rewrite Hr. cbn beta iota. cbn [Nat.add] in Hm1.
+  destruct (lookup (AObj b) m) as [o|] eqn:Ho; cbn [verify_object]; steps; finish.
+Qed.
+
+Lemma tag_object_total : forall m L p c, typed m -> lookup (APidRef p) m = None ->
+  memb lock_eqb (LRefPid, IPid p) L = false -> memb lock_eqb (LCid, ICid c) L = false ->
+  memb lock_eqb (LFile, IDoc (ACidRef c)) L = false ->
+  exists m', run_seq (mkWorld m L) (tag_object p c) = Some (mkWorld m' L, Val tt) /\
+    lookup (APidRef p) m' = Some (CCid c) /\
+    (exists l, lookup (ACidRef c) m' = Some (CLines l) /\ memb Nat.eqb p l = true) /\
+    (forall k, lookup (AObj k) m' = lookup (AObj k) m).
+Proof.
+  intros m L p c Ht Hp HL1 HL2 HL3.
+  unfold tag_object, store_refs_body, and_sc, notm.
+  destruct (lookup (ACidRef c) m) as [y|] eqn:Hc.
+  - destruct (Ht _ _ Hc) as [l ->].
+    destruct (memb Nat.eqb p l) eqn:Hm.
+    + run2. name_tmp. run2.
+      eexists. split; [reflexivity|]. split; [lk; reflexivity|].
+      split; [eexists; split; [lk; reflexivity|assumption]|intros k; lk; reflexivity].
+    + run2. name_tmp. run2.
+      eexists. split; [reflexivity|]. split; [lk; reflexivity|].
+      split; [eexists; split; [lk; reflexivity|apply memb_app_last]|intros k; lk; reflexivity].
+  - run2. name_tmp. run2. name_tmp.
+    assert (Hne : Nat.eqb n n0 = false).
+    { destruct (Nat.eqb n n0) eqn:E; auto. apply Nat.eqb_eq in E. subst n0.
+      rewrite lookup_update_eq in Hab0. discriminate. }
+    assert (Hne' : Nat.eqb n0 n = false) by (rewrite Nat.eqb_sym; exact Hne).
+    repeat (run2; rewrite ?Hne, ?Hne'; cbn beta iota).
+    eexists. split; [reflexivity|]. split; [lk; reflexivity|].
+    split; [eexists; split; [lk; reflexivity|cbn; rewrite Nat.eqb_refl; reflexivity]|intros k; lk; reflexivity].
+Qed.
+
+Lemma store_object_total : forall m p d, typed m -> lookup (APidRef p) m = None ->
+  (forall x, lookup (AObj d) m = Some x -> x = CData d 1 1) ->
+  exists m2, run_seq (mkWorld m []) (store_object (Some p) SrcPath d 1 VSzNone VCkNone) =
+               Some (mkWorld m2 [], Val (VMeta d 1)) /\
+    lookup (APidRef p) m2 = Some (CCid d) /\
+    (exists l, lookup (ACidRef d) m2 = Some (CLines l) /\ memb Nat.eqb p l = true) /\
+    lookup (AObj d) m2 = Some (CData d 1 1).
+Proof.
+  intros m p d Ht Hp Hsz. unfold store_object. steps.
+  match goal with
+  | |- context [run_seq (mkWorld m ?L0) (move_and_get_checksums _ _ _ _ _)] =>
+      destruct (run_mgc_gen p d 1 m L0) as (m1 & Hr & He); rewrite Hr
+  end. steps.
+  assert (Ht1 : typed m1).
+  { intros a v Hl. rewrite He in Hl. unfold obj_added, present in Hl.
+    destruct (lookup (AObj d) m) eqn:Ho; [apply Ht; exact Hl|].
+    rewrite lookup_update in Hl. destruct (addr_eqb a (AObj d)) eqn:E; [|apply Ht; exact Hl].
+    apply addr_eqb_true in E. subst. inversion Hl; subst. simpl. eauto. }
+  assert (Hp1 : lookup (APidRef p) m1 = None).
+  { rewrite He. unfold obj_added. destruct (present (AObj d) m); [exact Hp|].
+    rewrite lookup_update_neq by discriminate. exact Hp. }
+  assert (Ho1 : lookup (AObj d) m1 = Some (CData d 1 1)).
+  { rewrite He. unfold obj_added, present. destruct (lookup (AObj d) m) eqn:Ho.
+    - rewrite Ho. f_equal. apply Hsz. reflexivity.
+    - apply lookup_update_eq. }
+  match goal with
+  | |- context [run_seq (mkWorld m1 ?L0) (tag_object _ _)] =>
+      destruct (tag_object_total m1 L0 p d Ht1 Hp1 eq_refl eq_refl eq_refl) as (m2 & Hr2 & Q1 & Q2 & Q3);
+      rewrite Hr2
+  end. steps.
+  exists m2. split; [reflexivity|]. split; [exact Q1|]. split; [exact Q2|]. rewrite Q3. exact Ho1.
+Qed.
+
+(* ---------- the recovery theorems ---------- *)
+
+Lemma WI_self : forall w0 p w, WI w0 p w -> WI w p w.
+Proof.
+  intros w0 p w (Ht & H1 & H2 & H3). split; [exact Ht|]. split; [auto|]. split; [auto|].
+  intros q k Hq Hb. unfold bound0 in Hb. split; [|auto].
+  rewrite (H1 q Hq) in Hb. apply (H3 q k Hq Hb).
+Qed.
+
+Definition pubF1 : cid -> fcontent -> Prop := fun _ _ => False.
+Definition pubF2 : fcontent -> Prop := fun _ => False.
+
+(* (ii) delete_object p from any crash state: it returns, with success or "unknown pid"; p's
+   reference is gone; no object appears or changes; the result is again a crash state *)
+Theorem delete_after_crash : forall w0 p w,
+  CrashInv w0 p w ->
+  exists w1 r1,
+    run_seq w (delete_object p) = Some (w1, r1) /\
+    (r1 = Val tt \/ r1 = Exn EPidRefsDoesNotExist) /\
+    lookup (APidRef p) (fs w1) = None /\
+    CrashInv w0 p w1 /\
+    (forall k x, lookup (AObj k) (fs w1) = Some x -> lookup (AObj k) (fs w) = Some x).
+Proof.
+  intros w0 p [m L] [HW HL]. simpl in HL. subst L.
+  pose proof HW as (Ht & _).
+  destruct (delete_object_total m p Ht) as (m' & r & Hrun & Hr & Hp).
+  exists (mkWorld m' []), r. split; [exact Hrun|]. split; [exact Hr|]. split; [exact Hp|].
+  split.
+  - split; [|reflexivity].
+    eapply run_seq_WI; [|apply agree_g0|exact HW|exact Hrun].
+    eapply safe_weaken; [apply (ok_delete_object w0 p pubT1 pubT2)|]. auto.
+  - assert (HO : OP (mkWorld m []) p pubF1 pubF2 (mkWorld m' [])).
+    { eapply run_seq_OP; [|apply agree_g0|eapply WI_self; exact HW|apply OP_start|exact Hrun].
+      eapply safe_weaken; [apply (ok_delete_object (mkWorld m []) p pubF1 pubF2)|]. auto. }
+    intros k x Hx. destruct HO as [HO _]. destruct (HO k x Hx) as [H|[]]. exact H.
+Qed.
+
+(* (iii) store_object(p, d) from any crash state in which p has no reference: it succeeds and p is
+   then retrievable with d *)
+Theorem store_after_delete : forall w0 p w1 d,
+  CrashInv w0 p w1 -> lookup (APidRef p) (fs w1) = None ->
+  (forall x, lookup (AObj d) (fs w1) = Some x -> x = CData d 1 1) ->
+  exists w2,
+    run_seq w1 (store_object (Some p) SrcPath d 1 VSzNone VCkNone) = Some (w2, Val (VMeta d 1)) /\
+    retr w2 p = Some (Val (CData d 1 1)) /\
+    CrashInv w0 p w2.
+Proof.
+  intros w0 p [m L] d [HW HL] Hp Hsz. simpl in HL, Hp, Hsz. subst L.
+  pose proof HW as (Ht & _).
+  destruct (store_object_total m p d Ht Hp Hsz) as (m2 & Hrun & Q1 & (l & Q2 & Q2') & Q3).
+  exists (mkWorld m2 []). split; [exact Hrun|].
+  assert (HW2 : WI w0 p (mkWorld m2 [])).
+  { eapply run_seq_WI; [|apply agree_g0|exact HW|exact Hrun].
+    eapply safe_weaken; [apply (ok_store_object_pid w0 p pubT1 pubT2); exact I|]. auto. }
+  split; [|split; [exact HW2|reflexivity]].
+  rewrite (retr_spec (mkWorld m2 []) p (proj1 HW2)). unfold retr_fun, sem_find, present. simpl fs.
+  rewrite Q1, Q2, Q2', Q3. cbv beta iota. rewrite Q3. reflexivity.
+Qed.
+
+(* SIZE CONSISTENCY for the recovery content d (stored as 1 chunk by [recovers]): an object d of
+   the start world is that 1 chunk, and the interrupted call did not publish d with another count *)
+Definition rec_size_ok (w0 : world) (c : call) (d : nat) : Prop :=
+  (forall x, lookup (AObj d) (fs w0) = Some x -> x = CData d 1 1) /\
+  match c with CStore _ _ b n _ _ => b = d -> n = 1 | _ => True end.
+
+Theorem crash_recovers : forall w0 c p n d others fmts,
+  Inv w0 -> no_dangling w0 -> call_pid c = Some p -> rec_size_ok w0 c d ->
+  recovers fmts w0 p others (reopen (run_crash n w0 (api c))) d.
+Proof.
+  intros w0 c p n d others fmts HI Hnd Hcp [Hs0 Hsc].
+  assert (Hc : forall p', call_pid c = Some p' -> p' = p) by (intros p' H; congruence).
+  set (w := reopen (run_crash n w0 (api c))).
+  pose proof (crash_CrashInv w0 c p n HI Hc) as HC. fold w in HC.
+  destruct (delete_after_crash w0 p w HC) as (w1 & r1 & Hrun1 & Hr1 & Hp1 & HC1 & Hobj).
+  assert (Hsz : forall x, lookup (AObj d) (fs w1) = Some x -> x = CData d 1 1).
+  { intros x Hx. apply Hobj in Hx.
+    destruct (crash_OP w0 c p n HI Hc) as [HO _]. fold w in HO.
+    destruct (HO d x Hx) as [H0|Hpub]; [apply Hs0; exact H0|].
+    destruct c; simpl in Hpub; try contradiction. destruct Hpub as [Hb ->].
+    subst b. rewrite (Hsc eq_refl). reflexivity. }
+  destruct (store_after_delete w0 p w1 d HC1 Hp1 Hsz) as (w2 & Hrun2 & Hretr & HC2).
+  exists w1, r1, w2, (VMeta d 1). split; [exact Hrun1|]. split; [exact Hr1|].
+  split; [exact Hrun2|]. split; [exact Hretr|].
+  intros q _ Hq. eapply WI_other_untouched; [exact HI|apply HC2|exact Hq|].
+  intros k Hk. eapply Hnd. exact Hk.
+Qed.
+
+(* "p is in no cid list after delete_object" is NOT true of every crash state: when the first
+   delete_object died between renaming p's reference away and rewriting the list, the second one
+   says PidRefsDoesNotExist and the stale line stays (store_object copes with it, see above) *)
+Example stale_line_survives :
+  let w0 := mkWorld [(AObj 7, CData 7 1 1); (APidRef 1, CCid 7); (ACidRef 7, CLines [1])] [] in
+  let w := reopen (run_crash 13 w0 (api (CDelete 1))) in
+  fs w = [(AObj 7, CData 7 1 1); (ACidRef 7, CLines [1]); (ADel (APidRef 1), CCid 7)] /\
+  run_seq w (delete_object 1) = Some (w, Exn EPidRefsDoesNotExist).
+Proof. vm_compute. split; reflexivity. Qed.
+
+(* ---------- the corrected full statement, proved ---------- *)
+
+Definition C10_general_statement_corrected : Prop :=
+  forall (w0 : world) (c : call) (p : pid) (n : nat),
+    Inv w0 -> no_dangling w0 -> call_pid c = Some p -> call_size_ok w0 c ->
+    let w := reopen (run_crash n w0 (api c)) in
+    (forall q fmts, q <> p -> other_untouched fmts w0 w q) /\
+    pid_retrievable_or_notfound w0 c p w /\
+    (forall d others fmts, rec_size_ok w0 c d -> recovers fmts w0 p others w d).
+
+Theorem C10_general_corrected : C10_general_statement_corrected.
+Proof.
+  intros w0 c p n HI Hnd Hcp Hsz w.
+  assert (Hc : forall p', call_pid c = Some p' -> p' = p) by (intros p' H; congruence).
+  split; [|split].
+  - intros q fmts Hq. eapply WI_other_untouched; [exact HI|exact (crash_WI w0 c p n HI Hc)|exact Hq|].
+    intros k Hk. eapply Hnd. exact Hk.
+  - apply crash_pid_retrievable_or_notfound; assumption.
+  - intros d others fmts Hd. apply crash_recovers; assumption.
 Qed.
